@@ -22,9 +22,16 @@ def probe_jobs(tier, seed):
             for k in range(3 if q else 6)]
 
 
+def matrix_jobs(tier, seed):
+    q = tier == "quick"
+    return [Job("framework.props.triggers", "run_event_matrix", {"seed": seed * 733 + k, "repeats": 4 if q else 40},
+                mode="interp" if k < (2 if q else 5) else "jit", timeout=300 if q else 1500, tag="matrix:%d" % k)
+            for k in range(3 if q else 7)]
+
+
 def trigger_jobs(tier, seed):
     q = tier == "quick"
-    return probe_jobs(tier, seed) + [Job("framework.props.triggers", "run_triggers",
+    return matrix_jobs(tier, seed) + probe_jobs(tier, seed) + [Job("framework.props.triggers", "run_triggers",
                 {"seed": seed * 389 + k, "count": 8000 if q else 60000, "deadline_s": 80 if q else 600},
                 mode="interp" if k % 2 else "jit", timeout=300 if q else 1500, tag="triggers:%d" % k)
             for k in range(2 if q else 6)]
@@ -36,6 +43,7 @@ def main(tier, seed):
 
         triggers.aggregate(rep, [j for j in extra if j.func == "run_triggers"])
         proberun.aggregate(rep, [j for j in extra if j.func == "run_probe"])
+        triggers.aggregate_matrix(rep, [j for j in extra if j.func == "run_event_matrix"])
 
     rep = _modelprop.run(
         "C08", tier, seed, RULE, do=["enum"], monitors=["budget", "fixpoint"], jit_share=0.0,
@@ -45,6 +53,7 @@ def main(tier, seed):
                                                                      "schedule injection"),
                ("triggers.unwatched_moves_checked", 2000, "trigger sufficiency"),
                ("probe.bc_passes_monitored", 3000, "compiled in-engine probe (plane B)"),
+               ("event_matrix.(type,event) cells", 70, "event x watcher matrix"),
                ("probe.reexecutions", 5000, "compiled in-engine probe (plane B)")],
         assumptions=["O-fix: chaotic iteration of the exhaustive hull operator; equality demanded only for models whose "
                      "constraints are all BC-documented types (gcc with positive capacities, no affine_eq)",
